@@ -107,8 +107,26 @@ class SigmaCollection:
             else self.rules
         )
 
-        # Sort rules by reference order
-        self.rules = list(sorted(self.rules))
+        # Sort rules by reference order: every rule comes after all rules it refers to (depth-first, stable
+        # with respect to the document order). The reference relation is only a partial order, therefore a
+        # comparison sort can't be used here.
+        ordered: list[SigmaRule | SigmaCorrelationRule] = []
+        visited: set[int] = set()
+        contained = {id(rule) for rule in self.rules}
+
+        def visit(rule: SigmaRule | SigmaCorrelationRule) -> None:
+            if id(rule) in visited:
+                return
+            visited.add(id(rule))
+            if isinstance(rule, SigmaCorrelationRule):
+                for rule_ref in rule.referenced_rules:
+                    if id(rule_ref.rule) in contained:
+                        visit(rule_ref.rule)
+            ordered.append(rule)
+
+        for rule in self.rules:
+            visit(rule)
+        self.rules = ordered
 
     @classmethod
     def from_dicts(
